@@ -324,6 +324,12 @@ func (x *Exec) checkFrame(fr *Frame, fc *FuncContract, r RetEdge, envPre *SpecEn
 			case *ESel:
 				base := envPre.eval(n.X)
 				st := derefT(base.T).Underlying().(*types.Struct)
+				if off, cnt, _, ok := e.ghostField(base.T, n.Name); ok {
+					for j := off; j < off+cnt; j++ {
+						key, _ := e.heapKey("H", derefT(base.T), j)
+						allowed[key] = append(allowed[key], base.C[0])
+					}
+				}
 				for i := 0; i < st.NumFields(); i++ {
 					if st.Field(i).Name() == n.Name {
 						off, cnt := e.fieldRange(st, i)
